@@ -59,6 +59,9 @@ def is_clean_ty(ty):
     """can a value of this type carry an identifier?  only id/secret types and string / byte carriers can"""
     if CLEAN_TY.match(ty):
         return True
+    # a bare type parameter (`T`, `&T`): inside generic accessors such as Secret<T>::as_ref the payload type is not known
+    if re.match(r"^&?(mut )?[A-Z]$", ty):
+        return False
     if ID_TYPES.search(ty) and not re.search(r"(MdkMemoryStorage|MdkSqliteStorage|MDK<|EpochSnapshotManager|MdkProvider)", ty):
         return False
     return not CARRIER.search(ty)
